@@ -5,8 +5,10 @@ import sys
 import time
 
 ROOT = os.path.dirname(os.path.dirname(os.path.abspath(__file__)))
-EVIDENCE = os.path.join(ROOT, 'evidence')
-REPLAYS = os.path.join(ROOT, 'replays')
+# VERIF_OUT redirects evidence/replay output (mutation self-tests must not overwrite the real evidence)
+OUT = os.environ.get('VERIF_OUT', ROOT)
+EVIDENCE = os.path.join(OUT, 'evidence')
+REPLAYS = os.path.join(OUT, 'replays')
 FINDINGS = os.path.join(ROOT, 'known_findings.json')
 
 
